@@ -4,6 +4,7 @@ import (
 	"fmt"
 	"image"
 	"image/color"
+	"image/draw"
 
 	"github.com/boombuler/barcode"
 
@@ -38,7 +39,7 @@ func (c11) Gen(tier string, seed int64) []fw.Unit {
 		nq = 15000
 	}
 	for i := 0; i < nq; i++ {
-		sch := int64(12*(1+r.Intn(300)) + []int{8, 9, 10, 8, 9, 7, 11, 8, 9, 10}[i%10])
+		sch := int64(13*(1+r.Intn(300)) + []int{8, 9, 10, 8, 9, 7, 11, 8, 9, 12}[i%10])
 		req := randomValidReq(r, "qr", sch)
 		if len(req.S) > 120 {
 			req.S = req.S[:40]
@@ -213,7 +214,7 @@ func (p c11) Exec(c *fw.Ctx, u *fw.Unit) {
 			c.Violation("render/"+fam+"/colorscheme", fmt.Sprintf("ColorScheme() = %#v, passed %#v", got, scheme), inner, "")
 			return
 		}
-		if bc.ColorModel() != scheme.Model {
+		if scheme.Model != nil && bc.ColorModel() != scheme.Model {
 			c.Violation("render/"+fam+"/colormodel", "ColorModel() is not the scheme's model", inner, "")
 			return
 		}
@@ -253,6 +254,36 @@ func (p c11) Exec(c *fw.Ctx, u *fw.Unit) {
 		if po.bc.Content() != bc.Content() || po.bc.Metadata() != bc.Metadata() {
 			c.Violation("render/"+fam+"/accessors-depend-on-scheme", "Content/Metadata differ between scheme and plain rendering", inner, "")
 			return
+		}
+	}
+	// optional fast-path accessors must agree with At
+	if fast, ok := bc.(interface {
+		RGBA64At(x, y int) color.RGBA64
+	}); ok {
+		for y := 0; y < g.H; y++ {
+			for x := 0; x < g.W; x++ {
+				r1, g1, b1, a1 := bc.At(x, y).RGBA()
+				f := fast.RGBA64At(x, y)
+				if uint32(f.R) != r1 || uint32(f.G) != g1 || uint32(f.B) != b1 || uint32(f.A) != a1 {
+					c.Violation("render/"+fam+"/rgba64at-disagrees-with-at", fmt.Sprintf("RGBA64At(%d,%d) = %v but At gives (%d,%d,%d,%d)", x, y, f, r1, g1, b1, a1), inner, "")
+					return
+				}
+			}
+		}
+	}
+	if scheme.Model != nil || req.Scheme < 0 {
+		// what the standard library draws must be what At reports
+		dst := image.NewRGBA64(bc.Bounds())
+		draw.Draw(dst, dst.Bounds(), bc, image.Point{}, draw.Src)
+		for y := 0; y < g.H; y++ {
+			for x := 0; x < g.W; x++ {
+				r1, g1, b1, a1 := bc.At(x, y).RGBA()
+				f := dst.RGBA64At(x, y)
+				if uint32(f.R) != r1 || uint32(f.G) != g1 || uint32(f.B) != b1 || uint32(f.A) != a1 {
+					c.Violation("render/"+fam+"/draw-disagrees-with-at", fmt.Sprintf("image/draw copies pixel (%d,%d) as %v but At gives (%d,%d,%d,%d)", x, y, f, r1, g1, b1, a1), inner, "")
+					return
+				}
+			}
 		}
 	}
 	// size prescribed by the structure
